@@ -37,10 +37,11 @@ package cache
 
 //@ func (*Cache).checkCapacity
 //@   serves C09
-//@   requires ca != nil && (ca.CacheSize > 0 ==> int(ca.CacheUseSize) + len(v) < 4294967296)
+//@   requires ca != nil
+//@   requires[C09] ca.CacheSize > 0 ==> int(ca.CacheUseSize) + len(v) < 4294967296
 //@   ensures @unlimited ca.CacheSize == 0 ==> int(result) == len(v)
-//@   ensures @fits ca.CacheSize > 0 && int(ca.CacheUseSize) + len(v) <= int(ca.CacheSize) ==> int(result) == len(v)
-//@   ensures @full ca.CacheSize > 0 && int(ca.CacheUseSize) + len(v) > int(ca.CacheSize) ==> result == 0
+//@   ensures[C09] @fits ca.CacheSize > 0 && int(ca.CacheUseSize) + len(v) <= int(ca.CacheSize) ==> int(result) == len(v)
+//@   ensures[C09] @full ca.CacheSize > 0 && int(ca.CacheUseSize) + len(v) > int(ca.CacheSize) ==> result == 0
 
 //@ func NewCache
 //@   serves C09
@@ -61,8 +62,8 @@ package cache
 //@   ensures @backing sameBacking(ca.Cache, old(ca.Cache)) || fresh(ca.Cache)
 //@   ensures @rest unchanged(ca.Sizes, ca.CacheUseSize, ca.CacheSize)
 //@   ensures @known scopesKnown(ca)
-//@   ensures[C09,C08,C05] @unique old(unique(ca)) ==> unique(ca)
-//@   ensures[C09,C08,C05] @sized old(sized(ca)) ==> sized(ca)
+//@   ensures @unique old(unique(ca)) ==> unique(ca)
+//@   ensures @sized old(sized(ca)) ==> sized(ca)
 //@   ensures[C09] @acct old(shape(ca) && acct(ca) && capped(ca)) ==> acct(ca) && capped(ca)
 //@   use old(tsumOne(ca.Cache, 0))
 //@   use tsumSplit(ca.Cache, 0, len(ca.Cache)-1, len(ca.Cache)) && tsumOne(ca.Cache, len(ca.Cache)-1) && tsumSame(ca.Cache, 0, len(ca.Cache)-1)
@@ -70,15 +71,15 @@ package cache
 //@ func (*Cache).Pop
 //@   serves C09
 //@   requires shape(ca)
-//@   requires[C09,C08,C05] unique(ca) && sized(ca)
+//@   requires unique(ca) && sized(ca)
 //@   requires[C09] acct(ca) && capped(ca)
 //@   modifies ca.Cache, ca.Cache[*], ca.CacheUseSize, ca.Sizes[*]
 //@   ensures @shape shape(ca) && result == nil
 //@   ensures @backing sameBacking(ca.Cache, old(ca.Cache)) || fresh(ca.Cache)
 //@   ensures @levels len(ca.Cache) == max(1, old(len(ca.Cache)) - 1)
 //@   ensures @known scopesKnown(ca)
-//@   ensures[C09,C08,C05] @unique unique(ca)
-//@   ensures[C09,C08,C05] @sized sized(ca)
+//@   ensures @unique unique(ca)
+//@   ensures @sized sized(ca)
 //@   ensures[C09] @acct acct(ca) && capped(ca)
 //@   ensures[C09] @total total(ca) == old(total(ca)) - old(msum(top(ca)))
 //@   use old(tsumSplit(ca.Cache, 0, len(ca.Cache)-1, len(ca.Cache))) && old(tsumOne(ca.Cache, len(ca.Cache)-1)) && old(tsumOne(ca.Cache, 0))
@@ -99,21 +100,23 @@ package cache
 //@ func (*Cache).Add
 //@   serves C09
 //@   requires shape(ca) && int(ca.CacheSize) + len(value) < 4294967296
-//@   requires[C09,C08,C05] unique(ca) && sized(ca)
+//@   requires unique(ca) && sized(ca)
 //@   requires[C09] acct(ca) && capped(ca)
 //@   modifies ca.CacheUseSize, ca.LastValue, ca.Sizes[key], ca.Cache[len(ca.Cache)-1][key]
 //@   ensures @shape shape(ca) && sameScopes(ca)
-//@   ensures[C09,C08,C05] @unique unique(ca)
-//@   ensures[C09,C08,C05] @sized sized(ca)
+//@   ensures @unique unique(ca)
+//@   ensures @sized sized(ca)
 //@   ensures[C09] @acct acct(ca) && capped(ca)
 //@   ensures @limit sizeLimit > 0 && len(value) > int(sizeLimit) ==> result != nil
 //@   ensures @dup old(visible(ca, key)) ==> result != nil
 //@   ensures @errdup result == ErrDup ==> old(visible(ca, key))
-//@   ensures @capacity ca.CacheSize > 0 && old(total(ca)) + len(value) > int(ca.CacheSize) ==> result != nil
+//@   ensures[C09] @capacity ca.CacheSize > 0 && old(total(ca)) + len(value) > int(ca.CacheSize) ==> result != nil
 //@   ensures @rejected result != nil ==> unchanged(ca.CacheUseSize, ca.LastValue) && in(key, ca.Sizes) == old(in(key, ca.Sizes)) && ca.Sizes[key] == old(ca.Sizes[key])
-//@     && in(key, top(ca)) == old(in(key, top(ca))) && top(ca)[key] == old(top(ca)[key]) && total(ca) == old(total(ca))
-//@   ensures @stored result == nil ==> in(key, top(ca)) && top(ca)[key] == value && in(key, ca.Sizes) && ca.Sizes[key] == sizeLimit
-//@     && total(ca) == old(total(ca)) + len(value) && msum(top(ca)) == old(msum(top(ca))) + len(value) && ca.LastValue == value
+//@     && in(key, top(ca)) == old(in(key, top(ca))) && top(ca)[key] == old(top(ca)[key])
+//@   ensures[C09] @rejectedtotal result != nil ==> total(ca) == old(total(ca))
+//@   ensures @stored result == nil ==> in(key, top(ca)) && top(ca)[key] == value && in(key, ca.Sizes) && ca.Sizes[key] == sizeLimit && ca.LastValue == value
+//@     && !old(visible(ca, key)) && (sizeLimit > 0 ==> len(value) <= int(sizeLimit))
+//@   ensures[C09] @storedtotal result == nil ==> total(ca) == old(total(ca)) + len(value) && msum(top(ca)) == old(msum(top(ca))) + len(value)
 //@   use old(tsumSplit(ca.Cache, 0, len(ca.Cache)-1, len(ca.Cache))) && old(tsumOne(ca.Cache, len(ca.Cache)-1))
 //@   use tsumSplit(ca.Cache, 0, len(ca.Cache)-1, len(ca.Cache)) && tsumOne(ca.Cache, len(ca.Cache)-1)
 //@   use tsumSame(ca.Cache, 0, len(ca.Cache)-1)
@@ -126,20 +129,21 @@ package cache
 //@ func (*Cache).Update
 //@   serves C09
 //@   requires shape(ca) && int(ca.CacheSize) + len(value) < 4294967296
-//@   requires[C09,C08,C05] unique(ca) && sized(ca)
+//@   requires unique(ca) && sized(ca)
 //@   requires[C09] acct(ca) && capped(ca)
 //@   modifies ca.CacheUseSize, ca.Cache[scope(ca, key)][key]
 //@   ensures @shape shape(ca) && sameScopes(ca)
-//@   ensures[C09,C08,C05] @unique unique(ca)
-//@   ensures[C09,C08,C05] @sized sized(ca)
+//@   ensures @unique unique(ca)
+//@   ensures @sized sized(ca)
 //@   ensures[C09] @acct acct(ca)
 //@   ensures[C09] @capped capped(ca)
 //@   ensures @limit old(ca.Sizes[key]) > 0 && len(value) > int(old(ca.Sizes[key])) ==> result != nil
 //@   ensures @missing !old(visible(ca, key)) ==> result != nil
-//@   ensures @capacity ca.CacheSize > 0 && old(total(ca)) - old(len(ca.Cache[scope(ca, key)][key])) + len(value) > int(ca.CacheSize) ==> result != nil
-//@   ensures @accepts old(visible(ca, key)) && (old(ca.Sizes[key]) == 0 || len(value) <= int(old(ca.Sizes[key])))
+//@   ensures[C09] @capacity ca.CacheSize > 0 && old(total(ca)) - old(len(ca.Cache[scope(ca, key)][key])) + len(value) > int(ca.CacheSize) ==> result != nil
+//@   ensures[C09] @accepts old(visible(ca, key)) && (old(ca.Sizes[key]) == 0 || len(value) <= int(old(ca.Sizes[key])))
 //@     && (ca.CacheSize == 0 || old(total(ca)) - old(len(ca.Cache[scope(ca, key)][key])) + len(value) <= int(ca.CacheSize)) ==> result == nil
-//@   ensures @rejected result != nil ==> unchanged(ca.CacheUseSize) && total(ca) == old(total(ca))
+//@   ensures[C09] @rejectedtotal result != nil ==> total(ca) == old(total(ca))
+//@   ensures @rejected result != nil ==> unchanged(ca.CacheUseSize)
 //@     && in(key, ca.Cache[old(scope(ca, key))]) == old(in(key, ca.Cache[scope(ca, key)]))
 //@     && ca.Cache[old(scope(ca, key))][key] == old(ca.Cache[scope(ca, key)][key])
 //@   ensures @stored result == nil ==> in(key, ca.Cache[old(scope(ca, key))]) && ca.Cache[old(scope(ca, key))][key] == value
@@ -151,7 +155,7 @@ package cache
 //@ func (*Cache).Get
 //@   serves C09
 //@   requires shape(ca)
-//@   requires[C09,C05] unique(ca)
+//@   requires unique(ca)
 //@   ensures @found result1 == nil ==> visible(ca, key) && in(key, ca.Cache[scope(ca, key)]) && result0 == ca.Cache[scope(ca, key)][key]
 //@   ensures @missing result1 != nil ==> !visible(ca, key)
 
@@ -159,13 +163,13 @@ package cache
 //@ func (*Cache).Reset
 //@   serves C09
 //@   requires shape(ca)
-//@   requires[C09,C08,C05] unique(ca) && sized(ca)
+//@   requires unique(ca) && sized(ca)
 //@   requires[C09] acct(ca) && capped(ca)
 //@   modifies ca.Cache, ca.CacheUseSize
 //@   ensures @scopes len(ca.Cache) == 1 && ca.Cache[0] == old(ca.Cache[0]) && sameBacking(ca.Cache, old(ca.Cache))
 //@   ensures @shape shape(ca)
-//@   ensures[C09,C08,C05] @unique unique(ca)
-//@   ensures[C09,C08,C05] @sized sized(ca)
+//@   ensures @unique unique(ca)
+//@   ensures @sized sized(ca)
 //@   ensures[C09] @acct acct(ca)
 //@   ensures[C09] @capped capped(ca)
 //@   ensures[C09] @released total(ca) == old(msum(ca.Cache[0]))
